@@ -378,12 +378,16 @@ class Arbiter(object):
                 if 'env' in new_watcher_cfg and key in old_watcher_cfg['env']:
                     del old_watcher_cfg['env'][key]
 
-            diff = DictDiffer(new_watcher_cfg, old_watcher_cfg).changed()
+            differ = DictDiffer(new_watcher_cfg, old_watcher_cfg)
+            # options that appear in or vanish from the section count too
+            diff = differ.changed() | differ.added() | differ.removed()
 
             if diff == set(['numprocesses']):
                 # if nothing but the number of processes is
                 # changed, just changes this
                 yield w.set_numprocesses(int(new_watcher_cfg['numprocesses']))
+                # remember it, the next reload compares with this one
+                w._cfg['numprocesses'] = new_watcher_cfg['numprocesses']
                 changed = False
             else:
                 changed = len(diff) > 0
